@@ -31,6 +31,13 @@ RealChecks == <<
   <<"sin(100)", Near(NSinL(NFromInt(100)), S("-0.5063656411097587936565576104597854320650327212953921286558504"))>>,
   <<"exp(-30.5)", Near(NExpL(S("-30.5")), S("5.67568523263272246187278872380665127714771085120751161713262e-14"))>>,
   <<"log(1e-7)", Near(NLogL(S("1e-7")), S("-16.1180956509583197881259401827905494532077104204014108322333"))>>,
+  <<"erf(0.5)", Near(NErfL(S("0.5")), S("0.52049987781304653768274665389196452873645157575796370005880573"))>>,
+  <<"erf(1)", Near(NErfL(N1), S("0.8427007929497148693412206350826092592960669979663029084599379"))>>,
+  <<"erf(-3.5)", Near(NErfL(S("-3.5")), S("-0.99999925690162765858725447631624390436427933990782720253740889"))>>,
+  <<"erf(6)", Near(NErfL(NFromInt(6)), S("0.99999999999999997848026328750108688340664960081261536952248594"))>>,
+  <<"erf(0.001)", Near(NErfL(S("0.001")), S("0.0011283787909692363799484776569048125992468632126466421387975624"))>>,
+  <<"erf(9.25)", Near(NErfL(S("9.25")), S("0.99999999999999999999999999999999999999579796278508028886546751"))>>,
+  <<"erf(20)", Near(NErfL(NFromInt(20)), N1) /\ Near(NErfL(NFromInt(0)), N0)>>,
   <<"asin(0.3)", Near(NAsinL(S("0.3")), S("0.304692654015397507972002961227529166954560031706776387392978"))>>,
   <<"sin2+cos2", Near(NAdd(NSq(NSinL(S("2.75"))), NSq(NCosL(S("2.75")))), N1)>>,
   <<"exp(log x)", Near(NExpL(NLogL(S("7.25"))), S("7.25"))>>,
